@@ -26,7 +26,7 @@ func runRace(prop string, rounds int) int {
 	case "C07":
 		fams := append([]schedFamily{}, schedFamilies...)
 		for _, rf := range regFamilies {
-			fams = append(fams, schedFamily{"reg." + rf.name, rf.types})
+			fams = append(fams, schedFamily{"reg." + rf.name, rf.types, nil})
 		}
 		for round := 0; round < rounds; round++ {
 			for _, f := range fams {
@@ -57,6 +57,9 @@ func runRace(prop string, rounds int) int {
 					want = append(want, guard(ws[i]))
 				}
 				p, ws := mk()
+				if f.pre != nil {
+					f.pre(p)
+				}
 				got := make([]string, n)
 				var wg sync.WaitGroup
 				start := make(chan struct{})
